@@ -173,9 +173,11 @@ CLAIMS = {
          "journal call follows it; a mutation in a static context is refused with a halt BEFORE any journal call and recorded; otherwise "
          "exactly one journal call, the journal-aware one for the method (so the access passes IncarnationDb's read tracking); database errors "
          "become recorded fatal faults. And GrevmExecutor::execute_incarnation's lifecycle: every attempt, successful or failed, finalizes "
-         "the revm journal exactly once before publishing / discarding, so a discarded or retried attempt leaves nothing in the reused EVM.",
-    note=TRUST + "NOT decided: the to_alloy adapter closure (Alloy / revm precompile types; a seeded change there -- a recorded database fault no longer "
-         "overrides an implementation's own error, seed C04-2 -- is NOT detected), gas charged once, call-frame revert semantics of "
+         "the revm journal exactly once before publishing / discarding, so a discarded or retried attempt leaves nothing in the reused EVM; the real "
+         "to_alloy adapter closure: a database fault or static refusal recorded by the facade is the call's result whatever the implementation returned, "
+         "otherwise the implementation's result is forwarded (Ok / halted output with the reservoir / EVM error), implementation called once.",
+    note=TRUST + "The Alloy adapter closure is decided with alloy's PrecompileInput reduced to the field it reads and from_alloy / the implementation / "
+         "PrecompileOutput::halt as ghosts. NOT decided: gas charged once, call-frame revert semantics of "
          "facade writes (revm journal), conflict detection of facade accesses beyond 'they go through the journal' (then C01's read kernels apply).",
     design="5/C11"),
  "C05": dict(
